@@ -117,6 +117,44 @@ def witness_flags(ctx):
     return flags
 
 
+REF_SCRIPT = """
+import sys, json, warnings
+warnings.simplefilter('ignore')
+from props import c18_lib as L
+print(json.dumps(L.reference_eval(json.load(sys.stdin))))
+"""
+
+
+def reference_recipes():
+    """fixed grids for the history-independence clause: stepped surfaces with columns ending exactly on layer
+    boundaries (so that snapping matters), unrotated / rotated / through a data file"""
+    rng = random.Random(18018)
+    out = []
+    for kind, n in (('float', (4, 3, 5)), ('float', (3, 4, 4)), ('file', (3, 3, 4)), ('rot', (3, 2, 4)), ('exact', (2, 3, 3)), ('file', (4, 2, 5))):
+        r = L.gen_recipe(rng, kind, force=dict(n=n, mode='stepped'))
+        r.pop('remove_inactive', None)
+        out.append(r)
+    return out
+
+
+def history_clause(ctx, st, refs, when):
+    """rectgeo is a function of the grid alone: the result computed in a fresh interpreter (first call of a process)
+    equals the result computed here, after all the other calls of this process"""
+    for recipe, fresh in refs:
+        try:
+            here = limited(CASE_LIMIT, L.reference_eval, recipe)
+        except CaseTimeout:
+            here = dict(err='CaseTimeout', res=None)
+        here = json.loads(json.dumps(here))
+        d = L.same_numbers(fresh, here)
+        ctx.count(('history', when, json.dumps(recipe, sort_keys=True)))
+        st.tot['history_clause_evaluations'] += 1
+        if d:
+            ctx.failure(ORACLE, 'rectgeo:depends-on-earlier-calls', {'recipe': recipe, 'when': when},
+                        'in a process that has already called rectgeo on other grids the result differs at ' + d[:200],
+                        'the result of a fresh interpreter (rectgeo is a function of the grid alone)')
+
+
 class Stats:
     def __init__(self):
         self.dist = collections.Counter()
@@ -185,7 +223,11 @@ def sweep(ctx, exe, st, n_exact, n_other, flags, maxn=(12, 12, 14)):
         for i in range(k):
             if st.stop: break
             force = forced[done + i] if done + i < len(forced) else None
-            r = L.gen_recipe(ctx.rng, 'rot' if (force is None and (done + i) % 3 == 1) else 'exact', maxn=maxn, force=force)
+            sel = (done + i) % 6 if force is None else 0
+            if sel == 5:      # through a data file (unrotated, standard precision): the model rounds as the file does
+                r = L.gen_recipe(ctx.rng, 'file', maxn=maxn, force=dict(angle=0.0, extra_precision=False))
+            else:
+                r = L.gen_recipe(ctx.rng, 'rot' if sel in (1, 4) else 'exact', maxn=maxn, force=force)
             if force is None and (done + i) % 9 == 0:       # the two defect classes, every time
                 r = dict(WITNESS[list(WITNESS)[((done + i) // 9) % 2]])
                 r['convention'] = ctx.rng.randrange(4); r['atmos_type'] = 2 if 'surface' in r and r['surface'] else ctx.rng.randrange(3)
@@ -193,7 +235,7 @@ def sweep(ctx, exe, st, n_exact, n_other, flags, maxn=(12, 12, 14)):
             if res is None: continue
             batch.append((r,) + res)
         if exe:
-            lines = [fl + ('1' if r.get('remove_inactive') else '0') + L.case_line(r, geo, grid)[1:] for r, geo, grid, geo1, bm, err in batch]
+            lines = [fl + ('1' if r.get('remove_inactive') else '0') + ('1' if r['kind'] == 'file' else '0') + L.case_line(r, geo, grid)[1:] for r, geo, grid, geo1, bm, err in batch]
             try:
                 outs = run_model(exe, lines)
             except Exception as e:
@@ -247,8 +289,16 @@ def run(ctx):
     flags = witness_flags(ctx)
     ctx.extra['recorded_defects_present'] = flags
     ctx.log('recorded defects present in the tree under test: %r' % flags)
+    refs = []
+    for r in reference_recipes():
+        try: refs.append((r, vf.run_impl(REF_SCRIPT, r, timeout=300, repo=ctx.repo)))
+        except Exception as e:
+            ctx.log('reference evaluation in a fresh interpreter failed', repr(e)[:300])
+            ctx.proof_failures.append({'kind': 'harness', 'name': 'reference-eval', 'detail': repr(e)[:1500]})
+    history_clause(ctx, st, refs, 'after the witness replays')
     if ctx.thorough: sweep(ctx, exe, st, 3000, 8000, flags)
     else: sweep(ctx, exe, st, 240, 600, flags)
+    history_clause(ctx, st, refs, 'after the sweep')
     ctx.extra['input_distribution'] = dict(sorted(st.dist.items()))
     ctx.extra['oracle_totals'] = dict(st.tot)
 
